@@ -50,20 +50,22 @@ def opt_text(rng, p):
 def make_case(cid, p, rng, e2e):
     opts = opt_text(rng, p)
     t = p["target"]
+    # the requested / written visibility of the trait is not a dimension of the rules: drawn per point
+    vis = rng.choice(["pub ", "pub ", "", "pub(crate) "])
     if t in ("trait", "trait0"):
         attr = "#[::entrait::%s(%s)] /*@inv*/" % (p["macro"], ", ".join(opts))
-        item = "pub trait Tr { fn f(&self, a: i32) -> i32; }" if t == "trait" else "pub trait Tr {}"
+        item = (vis + "trait Tr { fn f(&self, a: i32) -> i32; }") if t == "trait" else (vis + "trait Tr {}")
         scope = "self"
     elif t == "fn":
-        attr = "#[::entrait::%s(%s)] /*@inv*/" % (p["macro"], ", ".join(["pub Tr"] + opts))
+        attr = "#[::entrait::%s(%s)] /*@inv*/" % (p["macro"], ", ".join([vis + "Tr"] + opts))
         item = "fn f<D>(deps: &D, a: i32) -> i32 { a }"
         scope = "self"
     elif t == "cfn":
-        attr = "pub struct Cfg;\n#[::entrait::%s(%s)] /*@inv*/" % (p["macro"], ", ".join(["pub Tr"] + opts))
+        attr = "pub struct Cfg;\n#[::entrait::%s(%s)] /*@inv*/" % (p["macro"], ", ".join([vis + "Tr"] + opts))
         item = "fn f(deps: &Cfg, a: i32) -> i32 { a }"
         scope = "self"
     else:
-        attr = "#[::entrait::%s(%s)] /*@inv*/" % (p["macro"], ", ".join(["pub Tr"] + opts))
+        attr = "#[::entrait::%s(%s)] /*@inv*/" % (p["macro"], ", ".join([vis + "Tr"] + opts))
         item = "pub mod m { pub fn f<D>(deps: &D, a: i32) -> i32 { a } }" if t == "mod" else "pub mod m { fn helper() -> i32 { 1 } pub struct NotAFn; }"
         scope = "self::m"
     lines = [attr, item, "pub fn run() {", '    ::vrt::fact("is_test", cfg!(test));']
